@@ -9,6 +9,18 @@ import (
 
 // TODO: set maximum recursion here
 func DeepCast(val Value, typ ast.Type, span errors.Span, allowCasts bool) (*Value, *Interrupt) {
+	return deepCastAt(val, typ, span, allowCasts, "")
+}
+
+// `path` describes the position of `val` in the value being cast (`.field`, `[index]`), for error messages.
+func castErr(path string, message string, span errors.Span) *Interrupt {
+	if path != "" {
+		message = fmt.Sprintf("at `%s`: %s", path, message)
+	}
+	return NewRuntimeErr(message, CastErrorKind, span)
+}
+
+func deepCastAt(val Value, typ ast.Type, span errors.Span, allowCasts bool, path string) (*Value, *Interrupt) {
 	// TODO: is this OK?
 	if typ.Kind() == ast.OptionTypeKind {
 		if val.Kind() == OptionValueKind {
@@ -21,7 +33,7 @@ func DeepCast(val Value, typ ast.Type, span errors.Span, allowCasts bool) (*Valu
 			valInner := *valOption.Inner
 			typInner := typOption.Inner
 
-			innerCast, i := DeepCast(valInner, typInner, span, allowCasts)
+			innerCast, i := deepCastAt(valInner, typInner, span, allowCasts, path)
 			if i != nil {
 				return nil, i
 			}
@@ -32,7 +44,7 @@ func DeepCast(val Value, typ ast.Type, span errors.Span, allowCasts bool) (*Valu
 			return NewNoneOption(), nil
 		}
 		// A value which is no option is wrapped, but only if it conforms to the option's inner type.
-		innerOnly, castErr := DeepCast(val, typ.(ast.OptionType).Inner, span, allowCasts)
+		innerOnly, castErr := deepCastAt(val, typ.(ast.OptionType).Inner, span, allowCasts, path)
 		if castErr != nil {
 			return nil, castErr
 		}
@@ -42,11 +54,7 @@ func DeepCast(val Value, typ ast.Type, span errors.Span, allowCasts bool) (*Valu
 	switch val.Kind() {
 	case BoolValueKind:
 		if !allowCasts && typ.Kind() != ast.BoolTypeKind {
-			return nil, NewRuntimeErr(
-				fmt.Sprintf("Incompatible values: a value of type '%s' is not compatible with a value of type '%s'", val.Kind(), typ),
-				CastErrorKind,
-				span,
-			)
+			return nil, castErr(path, fmt.Sprintf("Incompatible values: a value of type '%s' is not compatible with a value of type '%s'", val.Kind(), typ), span)
 		}
 
 		baseBool := val.(ValueBool).Inner
@@ -72,11 +80,7 @@ func DeepCast(val Value, typ ast.Type, span errors.Span, allowCasts bool) (*Valu
 		}
 	case IntValueKind:
 		if !allowCasts && typ.Kind() != ast.IntTypeKind {
-			return nil, NewRuntimeErr(
-				fmt.Sprintf("Incompatible values: a value of type '%s' is not compatible with a value of type '%s'", val.Kind(), typ),
-				CastErrorKind,
-				span,
-			)
+			return nil, castErr(path, fmt.Sprintf("Incompatible values: a value of type '%s' is not compatible with a value of type '%s'", val.Kind(), typ), span)
 		}
 
 		baseInt := val.(ValueInt).Inner
@@ -97,11 +101,7 @@ func DeepCast(val Value, typ ast.Type, span errors.Span, allowCasts bool) (*Valu
 		}
 	case FloatValueKind:
 		if !allowCasts && typ.Kind() != ast.FloatTypeKind {
-			return nil, NewRuntimeErr(
-				fmt.Sprintf("Incompatible values: a value of type '%s' is not compatible with a value of type '%s'", val.Kind(), typ),
-				CastErrorKind,
-				span,
-			)
+			return nil, castErr(path, fmt.Sprintf("Incompatible values: a value of type '%s' is not compatible with a value of type '%s'", val.Kind(), typ), span)
 		}
 
 		baseFloat := val.(ValueFloat).Inner
@@ -122,11 +122,7 @@ func DeepCast(val Value, typ ast.Type, span errors.Span, allowCasts bool) (*Valu
 		}
 	case ObjectValueKind:
 		if !allowCasts && typ.Kind() != ast.ObjectTypeKind {
-			return nil, NewRuntimeErr(
-				fmt.Sprintf("Incompatible values: a value of type '%s' is not compatible with a value of type '%s'", val.Kind(), typ),
-				CastErrorKind,
-				span,
-			)
+			return nil, castErr(path, fmt.Sprintf("Incompatible values: a value of type '%s' is not compatible with a value of type '%s'", val.Kind(), typ), span)
 		}
 
 		objVal := val.(ValueObject)
@@ -143,7 +139,7 @@ func DeepCast(val Value, typ ast.Type, span errors.Span, allowCasts bool) (*Valu
 				found := false
 				for _, otherField := range objType.ObjFields {
 					if key == otherField.FieldName.Ident() {
-						newField, i := DeepCast(*field, otherField.Type, span, allowCasts)
+						newField, i := deepCastAt(*field, otherField.Type, span, allowCasts, path+"."+key)
 						if i != nil {
 							return nil, i
 						}
@@ -153,32 +149,20 @@ func DeepCast(val Value, typ ast.Type, span errors.Span, allowCasts bool) (*Valu
 					}
 				}
 				if !found {
-					return nil, NewRuntimeErr(
-						fmt.Sprintf("Incompatible values: found unexpected field '%s'", key),
-						CastErrorKind,
-						span,
-					)
+					return nil, castErr(path, fmt.Sprintf("Incompatible values: found unexpected field '%s'", key), span)
 				}
 			}
 
 			for _, field := range objType.ObjFields {
 				_, found := objVal.FieldsInternal[field.FieldName.Ident()]
 				if !found {
-					return nil, NewRuntimeErr(
-						fmt.Sprintf("Incompatible values: field '%s' was expected but not found", field.FieldName.Ident()),
-						CastErrorKind,
-						span,
-					)
+					return nil, castErr(path, fmt.Sprintf("Incompatible values: field '%s' was expected but not found", field.FieldName.Ident()), span)
 				}
 			}
 
 			return NewValueObject(outputFields), nil
 		default:
-			return nil, NewRuntimeErr(
-				fmt.Sprintf("Incompatible values: a value of type '%s' is not compatible with a value of type '%s'", val.Kind(), typ),
-				CastErrorKind,
-				span,
-			)
+			return nil, castErr(path, fmt.Sprintf("Incompatible values: a value of type '%s' is not compatible with a value of type '%s'", val.Kind(), typ), span)
 		}
 	case ListValueKind:
 		listVal := val.(ValueList)
@@ -187,8 +171,8 @@ func DeepCast(val Value, typ ast.Type, span errors.Span, allowCasts bool) (*Valu
 			asType := typ.(ast.ListType)
 
 			outputList := make([]*Value, 0)
-			for _, item := range *listVal.Values {
-				newVal, i := DeepCast(*item, asType.Inner, span, allowCasts)
+			for index, item := range *listVal.Values {
+				newVal, i := deepCastAt(*item, asType.Inner, span, allowCasts, fmt.Sprintf("%s[%d]", path, index))
 				if i != nil {
 					return nil, i
 				}
@@ -199,21 +183,13 @@ func DeepCast(val Value, typ ast.Type, span errors.Span, allowCasts bool) (*Valu
 		}
 	case AnyObjectValueKind:
 		if typ.Kind() != ast.AnyObjectTypeKind {
-			return nil, NewRuntimeErr(
-				fmt.Sprintf("Incompatible values: a value of type '%s' is not compatible with a value of type '%s'", val.Kind(), typ),
-				CastErrorKind,
-				span,
-			)
+			return nil, castErr(path, fmt.Sprintf("Incompatible values: a value of type '%s' is not compatible with a value of type '%s'", val.Kind(), typ), span)
 		}
 
 		return &val, nil
 	case OptionValueKind:
 		if typ.Kind() != ast.OptionTypeKind {
-			return nil, NewRuntimeErr(
-				fmt.Sprintf("Incompatible values: a value of type '%s' is not compatible with a value of type '%s'", val.Kind(), typ),
-				CastErrorKind,
-				span,
-			)
+			return nil, castErr(path, fmt.Sprintf("Incompatible values: a value of type '%s' is not compatible with a value of type '%s'", val.Kind(), typ), span)
 		}
 
 		opt := val.(ValueOption)
@@ -225,7 +201,7 @@ func DeepCast(val Value, typ ast.Type, span errors.Span, allowCasts bool) (*Valu
 		}
 
 		// otherwise, the inner type must also match
-		return DeepCast(*opt.Inner, optType, span, allowCasts)
+		return deepCastAt(*opt.Inner, optType, span, allowCasts, path)
 	case ClosureValueKind, FunctionValueKind, BuiltinFunctionValueKind:
 		panic("Unreachable, the analyzer prevents this")
 	case NullValueKind:
@@ -246,9 +222,5 @@ func DeepCast(val Value, typ ast.Type, span errors.Span, allowCasts bool) (*Valu
 			return &val, nil
 		}
 	}
-	return nil, NewRuntimeErr(
-		fmt.Sprintf("Incompatible values: a value of type '%s' is not compatible with a value of type '%s'", val.Kind(), typ),
-		CastErrorKind,
-		span,
-	)
+	return nil, castErr(path, fmt.Sprintf("Incompatible values: a value of type '%s' is not compatible with a value of type '%s'", val.Kind(), typ), span)
 }
